@@ -80,7 +80,8 @@ class GWCSAPIMixin(BaseHighLevelWCS, BaseLowLevelWCS):
 
             # a frame known by name only (None here) has pixel axes
             units = frame.unit if frame is not None else (u.pix,) * len(result)
-            result = tuple(r.to_value(unit) for r, unit in zip(result, units))
+            # a user-supplied inverse need not carry units although the forward transform does
+            result = tuple(r.to_value(unit) if isinstance(r, u.Quantity) else r for r, unit in zip(result, units))
 
         # If we only have one output axes, we shouldn't return a tuple.
         if self.output_frame.naxes == 1 and isinstance(result, tuple):
